@@ -471,11 +471,16 @@ Fixpoint ins_eo (x : envobs) (l : list envobs) : list envobs :=
   | y :: r => if N.leb (eo_id x) (eo_id y) then x :: l else y :: ins_eo x r
   end.
 
+(* the state field of a task that is not ACTIVE is not compared: the core writes it from one goroutine
+   per update, so a late CONFIGURE reply can overwrite the ERROR of a task that died meanwhile *)
+Definition norm_task (t : task) : task :=
+  if t_active t then t else mkTask (t_id t) (t_owner t) false 9 (t_idok t).
+
 Definition observe (s : st) (o : out) : obs :=
   mkObs (o_rc o)
         (fold_right ins_eo []
            (map (fun x => mkEO (e_id x) (e_state x) (dedupN (sortN (e_dets x))) (e_pend x)) (s_envs s)))
-        (sort_roster (s_roster s))
+        (sort_roster (map norm_task (s_roster s)))
         (dedupN (sortN (active_dets (s_envs s))))
         (sort_tids (o_kills o)) (sort_tids (o_cmds o)) (o_calls o) (sort_tids (o_trigs o)) 0 (o_pend o)
         (sort_tids (o_launch o)).
